@@ -481,6 +481,8 @@ def check_fields(facts, chk):
 
 
 def run(facts, chk, tier, only=None):
+    from . import cli_parsers
+    cli_parsers.check_usize_options(facts, chk, 'C09.opt', 'k')
     from . import cli_e2e
     # the subcommand through ska::main() itself (argument parser replaced by a constructed Args value): hand-over of CLI values, width dispatch
     chk.guard('C09.cli', 'C09.cli:run0', lambda: cli_e2e.check_align(facts, chk, 'C09.cli', tier))
